@@ -141,6 +141,7 @@ func skipFile(ctx *build.Context, p string, skipTest bool) bool {
 	if skipTest && strings.HasSuffix(p, "_test") {
 		return true
 	}
+	p = strings.TrimSuffix(p, "_test")
 	i := strings.Index(p, "_")
 	if i < 0 {
 		return false
